@@ -549,9 +549,33 @@ def explore(ctx, probe: Probe, failures: list, summary: dict, deadline: float, w
             check_family(ctx, probe, label, lambda n, t=tmpl, l=leaf: nest_text(t, n, l), pairs, failures, summary)
     for name, gen in SIZED.items():
         check_family(ctx, probe, name, gen, pairs if quick else pairs + [(32, 64)], failures, summary, sized=True)
+    # CPU time must follow the call counts (thorough tier): doubling the size of a long input whose call
+    # count is linear must not multiply the time by more than 10 (quadratic string handling passes)
+    if not quick:
+        for name, gen in SIZED.items():
+            row = summary.get(name)
+            if not isinstance(row, dict) or any(isinstance(v, str) for v in row.values()):
+                continue
+            for n, n2 in ((32, 64), (64, 128)):
+                t1, t2 = gen(n), gen(n2)
+                if unsafe_in_process(t1) or unsafe_in_process(t2):
+                    continue
+                a = min(probe.run(t1, budget=3_000_000, check=False)["cpu"] for _ in range(2))
+                b = min(probe.run(t2, budget=3_000_000, check=False)["cpu"] for _ in range(2))
+                ctx.case({"family": name, "n": n2, "time": True}, True)
+                summary[name + " cpu_s"] = {**summary.get(name + " cpu_s", {}), n: round(a, 4), n2: round(b, 4)}
+                if a >= 0.05 and b > 10 * a:
+                    b = min(b, min(probe.run(t2, budget=3_000_000, check=False)["cpu"] for _ in range(3)))
+                    if b > 10 * a:
+                        failures.append({
+                            "key": {"clause": "time", "family": name},
+                            "input": {"family": name, "n": n, "n2": n2, "cpu_n": a, "cpu_n2": b},
+                            "what": f"family {name}: {a:.3f} s CPU at size {n}, {b:.3f} s at size {n2} (more than 10x "
+                                    f"for twice the input) although the number of rebuild calls is linear",
+                        })
     # random cycles of two or three steps
     names = [w for w, _ in WRAPPERS]
-    n_cycles = (300 if quick else 4000) * (3 if wide else 1)
+    n_cycles = (300 if quick else 12000) * (3 if wide else 1)
     for i in range(n_cycles):
         if time.time() > deadline - (25 if quick else 300):
             ctx.count("cycles_skipped_for_time", n_cycles - i)
@@ -585,10 +609,16 @@ def explore(ctx, probe: Probe, failures: list, summary: dict, deadline: float, w
         if time.time() > deadline - (12 if quick else 200) or done > budget_texts:
             ctx.count("damage_skipped_for_time")
             break
-        for d in damaged(ctx, t, quick):
+        first = damaged(ctx, t, quick)
+        for d in first:
             run_text(ctx, probe, d, "damaged", want_cost=(done % 7 == 0))
             done += 1
-    n_random = (5000 if quick else 50000) * (3 if wide else 1)
+        if not quick:  # two damages per text
+            for d in ctx.rng.sample(first, min(10, len(first))):
+                for d2 in damaged(ctx, d, True):
+                    run_text(ctx, probe, d2, "damaged2")
+                    done += 1
+    n_random = (5000 if quick else 150000) * (3 if wide else 1)
     for i in range(n_random):
         if time.time() > deadline - (6 if quick else 60):
             ctx.count("random_skipped_for_time", n_random - i)
@@ -611,7 +641,7 @@ def explore(ctx, probe: Probe, failures: list, summary: dict, deadline: float, w
                 for leaf in ("x", "[ ]", "{ }", "\"s\"", "a: b", "[\n  1\n  2\n]"):
                     run_text(ctx, probe, t1.replace(HOLE, t2.replace(HOLE, leaf)), "shape2")
     # valid random programs: cycles over several leaves at small depth, with the cost model
-    for i in range(500 if quick else 5000):
+    for i in range(500 if quick else 20000):
         if time.time() > deadline - (4 if quick else 30):
             break
         cyc = [ctx.rng.choice(names) for _ in range(ctx.rng.randint(1, 4))]
